@@ -139,10 +139,10 @@ func LoadProgram(repo string) (*Program, error) {
 			return nil, err
 		}
 		prog.SynthSrc = synth
-		fname := fmt.Sprintf("/verif/out/__spec_verif_%d.go", round)
+		fname := fmt.Sprintf(outRoot+"/__spec_verif_%d.go", round)
 		sf, err = parser.ParseFile(p0.Fset, fname, synth, parser.ParseComments)
 		if err != nil {
-			os.WriteFile("/verif/out/__spec_verif.go", []byte(synth), 0o644)
+			os.WriteFile(outRoot+"/__spec_verif.go", []byte(synth), 0o644)
 			return nil, fmt.Errorf("synthesized spec file does not parse: %v", err)
 		}
 		imp := importerFromPkgs{p0.Imports}
@@ -199,7 +199,7 @@ func LoadProgram(repo string) (*Program, error) {
 			}
 		}
 		if len(fatal) > 0 || !progress || round > 6 {
-			os.WriteFile("/verif/out/__spec_verif.go", []byte(synth), 0o644)
+			os.WriteFile(outRoot+"/__spec_verif.go", []byte(synth), 0o644)
 			var msgs []string
 			for _, te := range terrs {
 				msgs = append(msgs, fmt.Sprintf("%s: %s", p0.Fset.Position(te.Pos), te.Msg))
